@@ -90,6 +90,32 @@ func runC03(r *rt.Run) {
 			one(b, a, w)
 		}
 	})
+	// shapes on the values that mean something on a map (x = +-180, +-179,
+	// y = +-90): the predicates are planar, 180 and -180 are 360 apart
+	{
+		var gs []*shp
+		xs, ys := []int64{-360, -358, 358, 360}, []int64{-180, 0, 20, 180} // half units
+		for _, x := range xs {
+			for _, y := range ys {
+				gs = append(gs, mkShp(&exact.Shape{Kind: exact.KPoint, Pt: exact.P{X: x, Y: y}}, nil))
+				for _, x2 := range xs {
+					if x2 > x {
+						gs = append(gs, mkShp(&exact.Shape{Kind: exact.KLine, Line: []exact.P{{X: x, Y: y}, {X: x2, Y: y}}}, nil))
+						if y < 180 {
+							gs = append(gs, mkShp(&exact.Shape{Kind: exact.KRect, Min: exact.P{X: x, Y: y}, Max: exact.P{X: x2, Y: y + 20}}, nil))
+							gs = append(gs, mkShp(&exact.Shape{Kind: exact.KPoly, Ext: []exact.P{{X: x, Y: y}, {X: x2, Y: y}, {X: x2, Y: y + 20}, {X: x, Y: y}}}, nil))
+						}
+					}
+				}
+			}
+		}
+		r.Bounds["map_edge_shapes"] = len(gs)
+		r.ParFor(len(gs), func(i int, w *rt.Worker) {
+			for _, b := range gs {
+				one(gs[i], b, w)
+			}
+		})
+	}
 	retracedLines(r)
 	sharedRings(r, p, "shared-ring-object")
 	bboxObjects(r, p, "bbox-changes-answer")
